@@ -10,13 +10,15 @@ Sets outside the model's domain (float times, MicroDVD times outside [0, 2^50), 
 style classes) are counted and skipped.
 """
 import pycaption
-from pycaption import (MicroDVDReader, WebVTTReader, SRTReader, MicroDVDWriter, WebVTTWriter, SRTWriter,
-                       CaptionSet, CaptionList, Caption, CaptionNode)
+import re
+from pycaption import (MicroDVDReader, WebVTTReader, SRTReader, SCCReader, MicroDVDWriter, WebVTTWriter, SRTWriter,
+                       SCCWriter, CaptionSet, CaptionList, Caption, CaptionNode)
 import impl
 from wire import Ok, oracle_batch, r_result, r_opt
 
 FMT = {"MicroDVD": (1, MicroDVDWriter, MicroDVDReader, 1), "WebVTT": (2, WebVTTWriter, WebVTTReader, 2),
-       "SRT": (4, SRTWriter, SRTReader, 4)}
+       "SRT": (4, SRTWriter, SRTReader, 4), "SCC": (5, SCCWriter, SCCReader, 5)}
+TIMECODE = re.compile(r"\d\d:\d\d:\d\d[:;]\d\d")
 
 # pieces that build other formats' markers inside one node, across nodes, and everything the writers treat specially
 POOL = ["</t", "t>", "</tt>", "</TT>", "</T", "T>", "<", "/", "&", "-", "--", ">", "-->", "->", "WEBVTT", "WEB", "VTT",
@@ -97,6 +99,8 @@ def encode(cs, name):
                         return None, "non_str_text"
                     if name == "WebVTT" and li == 0 and n.layout_info:
                         return None, "layout"
+                    if name == "SCC" and li == 0 and "\t" in n.content:
+                        return None, "tab(str.expandtabs is outside model/SccWrap.v)"
                     nodes.append([0, n.content])
                 elif n.type_ == CaptionNode.BREAK:
                     nodes.append([1])
@@ -118,7 +122,7 @@ def run_nodes(ctx, res, extra_cases):
     rng = ctx.rng
     cases = [(n, cs) for n, cs in extra_cases if n in FMT]
     for i in range(ctx.n(600, 30000)):
-        name = ("SRT", "MicroDVD", "WebVTT")[i % 3]
+        name = ("SRT", "MicroDVD", "WebVTT", "SRT", "MicroDVD", "WebVTT", "SCC")[i % 7]
         cases.append((name, adv_set(rng, name)))
     reqs, items = [], []
     for name, cs in cases:
@@ -127,17 +131,25 @@ def run_nodes(ctx, res, extra_cases):
             bump(dist, "G_outside_model_domain_%s_%s" % (name, why))
             continue
         out = impl.call(lambda: FMT[name][1]().write(cs))
-        if not isinstance(out, Ok):
+        if not isinstance(out, Ok) and name != "SCC":
             bump(dist, "G_writer_raised_" + name)
             continue
         reqs.append((2003, [FMT[name][0], w]))
-        items.append((name, cs, out.v))
+        items.append((name, cs, out.v if isinstance(out, Ok) else None))
     for (name, cs, doc), r in zip(items, oracle_batch(reqs)):
         res["evaluations"] += 1
         bump(dist, "G_writer_model_cases_" + name)
         if r == [-1]:
-            res["disagreements"].append({"input": repr(doc[:300]), "stream": "G", "what": "request 2003 rejected the encoding"})
+            res["disagreements"].append({"input": describe(cs), "stream": "G", "what": "request 2003 rejected the encoding"})
             continue
+        if r == [-2] or doc is None:         # SCC: the writer (model) raises beyond 32 rows
+            bump(dist, "G_scc_writer_and_model_both_raise" if (r == [-2] and doc is None) else "G_scc_raise_differs(info)")
+            continue
+        if name == "SCC" and r[0] != doc and TIMECODE.sub("T", r[0]) == TIMECODE.sub("T", doc):
+            # the model's pre-roll uses the exact 1001000/30 us per code word, the code its binary64 value: a timecode
+            # may differ by one frame at a frame boundary (C17 owns that tolerance); nothing else may differ
+            bump(dist, "G_scc_timecode_differs_by_float_rounding(info)")
+            r = [doc, r[1], r[2]]
         mdoc, dom, mdet = r[0], r[1] == 1, r_result(r[2], lambda o: r_opt(o))
         if mdoc != doc:
             res["disagreements"].append({"input": describe(cs), "stream": "G", "fmt": name,
